@@ -605,6 +605,8 @@ func init() {
 		designRun(r, "C04", tierCfgs(r, []string{"aug_quick", "aug_late", "uses_quick", "aug_pair", "aug_sub_quick", "cfg"}, []string{"aug_sub", "aug_two", "uses", "split"}), col)
 		r.ValidateTrace("schema", col, core.TLCOpts{Module: "SchemaTrace", Cfg: "SchemaTrace.cfg", Timeout: 0, HeapGB: 8})
 		directionB(r, "C04", true)
+		// however the run is asked for (Process, GetModule, after ClearEntryCache): clean means clean, and the trees are those of a fresh set
+		SessionHistories(r, "C04", "dv")
 	}
 	core.Checks["C12"] = func(r *core.Run) {
 		r.Rule = "A: the config space (config unset/true/false at three depths; the second and third level placed by plain nesting, uses, a shorthand choice member or case, or an augment from another module; the whole tree in the module or in a submodule; the same under rpc input, rpc output and notification without config statements) and the augment space; for every node of every clean outcome ReadOnly(), Namespace() and InstantiatingModule() are compared with the specification's reading of who wrote which statement. Non-trivial = every case."
